@@ -1635,20 +1635,13 @@ namespace awkward {
                                                  outlength,
                                                  ascending,
                                                  stable);
-      next = std::make_shared<RegularArray>(
-        Identities::none(),
-        util::Parameters(),
-        next,
-        next.get()->length(),
-        next.get()->length());
-
       contents.push_back(next);
     }
     return std::make_shared<RecordArray>(Identities::none(),
                                          parameters_,
                                          contents,
                                          recordlookup_,
-                                         outlength).get()->getitem_at_nowrap(0);
+                                         length());
   }
 
   const ContentPtr
@@ -1672,12 +1665,6 @@ namespace awkward {
                                                     outlength,
                                                     ascending,
                                                     stable);
-      next = std::make_shared<RegularArray>(
-        Identities::none(),
-        util::Parameters(),
-        next,
-        next.get()->length(),
-        next.get()->length());
       contents.push_back(next);
     }
     return std::make_shared<RecordArray>(
@@ -1685,7 +1672,7 @@ namespace awkward {
       util::Parameters(),
       contents,
       recordlookup_,
-      outlength).get()->getitem_at_nowrap(0);
+      length());
   }
 
   const ContentPtr
